@@ -10,6 +10,7 @@ import (
 	"sort"
 	"strconv"
 	"strings"
+	"sync/atomic"
 	"time"
 
 	otter "github.com/maypok86/otter/v2"
@@ -73,6 +74,9 @@ type manualClock struct {
 }
 
 func (m *manualClock) NowNano() int64 {
+	if vsched.FreeRunning {
+		return atomic.LoadInt64(&m.now)
+	}
 	if m.sample != nil {
 		m.sample[vsched.CurID()] = m.now
 	}
@@ -188,6 +192,8 @@ type Rig struct {
 	// loader behaviour for the current op of a thread
 	loadPlan         map[int]string
 	stamp            int64
+	quiet            bool // race pass: handlers, calculators and loaders record nothing
+	quietID          atomic.Int64
 	Saved            []byte
 	refreshChans     []refreshChan
 	bulkRefreshChans []bulkRefreshChan
@@ -209,7 +215,7 @@ var errLoad = errors.New("load failed")
 
 // NewRig builds the cache. It must be called natively (no exploration active).
 func NewRig(cfg CacheCfg, x *Exec) *Rig {
-	r := &Rig{Cfg: cfg, X: x, ttl: map[int]int64{}, rttl: map[int]int64{}, opIndex: map[int]int{}, Installs: map[int]int{}, loadPlan: map[int]string{}}
+	r := &Rig{Cfg: cfg, X: x, quiet: vsched.FreeRunning, ttl: map[int]int64{}, rttl: map[int]int64{}, opIndex: map[int]int{}, Installs: map[int]int{}, loadPlan: map[int]string{}}
 	r.Clock = &manualClock{now: cfg.ClockStart, tick: make(chan time.Time), sample: map[int]int64{}}
 	if cfg.Collide {
 		vdet.HashFn = func(seed uint64, key any) uint64 { return 5 }
@@ -243,21 +249,34 @@ func NewRig(cfg CacheCfg, x *Exec) *Rig {
 	case "default":
 		// nil: otter's default `go fn()` which the overlay turns into a managed thread
 	case "deferred":
-		o.Executor = func(fn func()) { r.Deferred = append(r.Deferred, fn) }
+		o.Executor = func(fn func()) {
+			lockFree()
+			r.Deferred = append(r.Deferred, fn)
+			unlockFree()
+		}
 	default:
 		panic("unknown executor " + cfg.Executor)
 	}
 	if !cfg.NoHandlers {
 		o.OnAtomicDeletion = func(e otter.DeletionEvent[int, int]) {
+			if r.quiet {
+				return
+			}
 			r.Atomic = append(r.Atomic, DelEvent{e.Key, e.Value, e.Cause, r.now(), r.Clock.now, vsched.CurID()})
 		}
 		o.OnDeletion = func(e otter.DeletionEvent[int, int]) {
+			if r.quiet {
+				return
+			}
 			r.Events = append(r.Events, DelEvent{e.Key, e.Value, e.Cause, r.now(), r.Clock.now, vsched.CurID()})
 		}
 	}
 	rec := func(hook string, d int64) func(e otter.Entry[int, int]) time.Duration {
 		return func(e otter.Entry[int, int]) time.Duration {
 			dd := d
+			if r.quiet {
+				return time.Duration(dd)
+			}
 			if t, ok := r.ttl[vsched.CurID()]; ok && t != 0 && !strings.HasPrefix(hook, "r") {
 				dd = t
 			}
@@ -315,6 +334,9 @@ type customExpiry struct {
 
 func (c *customExpiry) pick(hook string, e otter.Entry[int, int], def int64) time.Duration {
 	d := def
+	if c.r.quiet {
+		return time.Duration(d)
+	}
 	if t, ok := c.r.ttl[vsched.CurID()]; ok && t != 0 {
 		d = t
 	}
@@ -329,6 +351,13 @@ func (c *customExpiry) ExpireAfterUpdate(e otter.Entry[int, int], old int) time.
 }
 func (c *customExpiry) ExpireAfterRead(e otter.Entry[int, int]) time.Duration {
 	return c.pick("read", e, int64(e.ExpiresAfter()))
+}
+
+// quietView returns a shallow copy whose bookkeeping maps are private to one operation, so that
+// concurrent operations of the free-running race pass do not share harness state.
+func (r *Rig) quietView() *Rig {
+	return &Rig{Cfg: r.Cfg, C: r.C, Clock: r.Clock, X: r.X, Counter: r.Counter, quiet: true,
+		ttl: map[int]int64{}, rttl: map[int]int64{}, opIndex: map[int]int{}, Installs: map[int]int{}, loadPlan: map[int]string{}}
 }
 
 // Close stops the cache's goroutines (native) and breaks the reference cycle
@@ -381,7 +410,9 @@ func (l *rigLoader) produce(key int, kind string, old int) (int, error) {
 	default:
 		lc.Out = map[int]int{key: v}
 	}
-	r.Loads = append(r.Loads, lc)
+	if !r.quiet {
+		r.Loads = append(r.Loads, lc)
+	}
 	switch l.outcome {
 	case "err":
 		return 0, errLoad
@@ -392,7 +423,9 @@ func (l *rigLoader) produce(key int, kind string, old int) (int, error) {
 	case "panic":
 		panic("loader panic")
 	}
-	r.Installs[v] = key
+	if !r.quiet {
+		r.Installs[v] = key
+	}
 	return v, nil
 }
 
@@ -419,7 +452,11 @@ func (l *rigBulkLoader) produce(kind string, keys []int, olds []int) (map[int]in
 	vsched.EnvPoint()
 	vsched.EnvPoint()
 	lc.Exit = r.now()
-	defer func() { r.Loads = append(r.Loads, lc) }()
+	defer func() {
+		if !r.quiet {
+			r.Loads = append(r.Loads, lc)
+		}
+	}()
 	out := map[int]int{}
 	sorted := append([]int(nil), keys...)
 	sort.Ints(sorted)
@@ -455,7 +492,9 @@ func (l *rigBulkLoader) produce(kind string, keys []int, olds []int) (map[int]in
 	}
 	lc.Out = map[int]int{}
 	for k, v := range out {
-		r.Installs[v] = k
+		if !r.quiet {
+			r.Installs[v] = k
+		}
 		lc.Out[k] = v
 	}
 	return out, nil
@@ -519,17 +558,28 @@ func (r *Rig) Do(th int, op string) (res OpResult) {
 	for _, tok := range strings.Fields(op) {
 		switch {
 		case strings.HasPrefix(tok, "ttl="):
-			r.ttl[cur0] = atoi64(tok[4:])
+			if !r.quiet {
+				r.ttl[cur0] = atoi64(tok[4:])
+			}
 		case strings.HasPrefix(tok, "rttl="):
-			r.rttl[cur0] = atoi64(tok[5:])
+			if !r.quiet {
+				r.rttl[cur0] = atoi64(tok[5:])
+			}
 		default:
 			f = append(f, tok)
 		}
 	}
 	res.Op = op
-	idx := r.opIndex[th]
-	r.opIndex[th] = idx + 1
-	id := (th+2)*1000 + idx*10
+	var id int
+	if r.quiet {
+		// race pass: no shared bookkeeping, ids only need to be distinct
+		id = int(r.quietID.Add(1)) * 10
+		r = r.quietView()
+	} else {
+		idx := r.opIndex[th]
+		r.opIndex[th] = idx + 1
+		id = (th+2)*1000 + idx*10
+	}
 	arg := func(i int, def int) int {
 		if len(f) > i {
 			return atoi(f[i])
@@ -697,7 +747,11 @@ func (r *Rig) Do(th int, op string) (res OpResult) {
 	case "adv":
 		vsched.EnvPoint()
 		if d := atoi64(f[1]); d > 0 && r.Clock.now <= math.MaxInt64-d {
-			r.Clock.now += d // a clock never runs backwards: an advance that would overflow is ignored
+			if vsched.FreeRunning {
+				atomic.AddInt64(&r.Clock.now, d)
+			} else {
+				r.Clock.now += d // a clock never runs backwards: an advance that would overflow is ignored
+			}
 		}
 	case "cleanup":
 		c.CleanUp()
